@@ -178,10 +178,11 @@ def _cap_and_policy(prog: Program, res: Result, lb: int):
 
     # ---- R02.2 right end under the cap: structural check of the defining statement
     cap_defs = []
+    right_name = sc.bisect_names(fi.node)["right"]
     for n in ast.walk(fi.node):
         if isinstance(n, ast.If) and "max_boreholes" in ast.unparse(n.test):
             for s in ast.walk(n):
-                if isinstance(s, ast.Assign) and len(s.targets) == 1 and isinstance(s.targets[0], ast.Name) and s.targets[0].id == "x_r_idx":
+                if isinstance(s, ast.Assign) and len(s.targets) == 1 and isinstance(s.targets[0], ast.Name) and s.targets[0].id == right_name:
                     cap_defs.append((s, any(s is x for b in n.body for x in ast.walk(b))))
     cap_branch = [s for s, in_body in cap_defs if in_body]
     if not cap_branch:
@@ -463,18 +464,19 @@ def run_rowwise(prog: Program, lb: int):
     fi = prog.func(q)
     hooks = _RWHooks()
     eng = Engine(prog, fi, hooks, loop_bound=lb, max_paths=400000, zero_trip=False)
+    final, via, extra = sc.rowwise_names(fi.node)
 
     def sd(s):
         if sc.seed(s):
             return True
         for n in ast.walk(s):
-            if isinstance(n, ast.Name) and n.id in ("selected_coordinates", "best_field") and isinstance(n.ctx, ast.Store):
+            if isinstance(n, ast.Name) and n.id in (final | via) and isinstance(n.ctx, ast.Store):
                 return True
             if isinstance(n, ast.Call) and attr_chain(n.func) == "len":
                 return True
         return False
 
-    eng.slice(fi.node.body, sd, extra_names={"selected_coordinates", "best_field", "upper_field", "lower_field"})
+    eng.slice(fi.node.body, sd, extra_names=set(extra))
     st = State()
     for p in fi.params():
         st.env[p] = Rat.atom(p)
